@@ -66,6 +66,136 @@ static secret_key_t sk, sk2;
 static signature_t sig, saved;
 static int have_saved = 0;
 
+#if VERIF_VARIANT == 0
+/* ---- verifier taps (hook H4 of protocols_verif): values collected during the last `verify` op */
+static struct {
+    int have_chall, have_ker, have_e1, have_e2, have_t, have_com, have_chk;
+    ec_curve_t Echall, E1, E2, Ecom;
+    int chall_len, ker_len, pow;
+    ec_point_t ker;
+    theta_couple_point_t T1, T2, T1m2;
+    char chk[2][1024];
+} vt;
+
+static void
+vtap_cb(const char *tag, const void *obj, int val)
+{
+    if (!strcmp(tag, "E_chall")) { vt.Echall = *(const ec_curve_t *)obj; vt.chall_len = val; vt.have_chall = 1; }
+    else if (!strcmp(tag, "small_ker")) { vt.ker = *(const ec_point_t *)obj; vt.ker_len = val; vt.have_ker = 1; }
+    else if (!strcmp(tag, "E1")) { vt.E1 = *(const ec_curve_t *)obj; vt.have_e1 = 1; }
+    else if (!strcmp(tag, "E2")) { vt.E2 = *(const ec_curve_t *)obj; vt.have_e2 = 1; }
+    else if (!strcmp(tag, "T1")) { vt.T1 = *(const theta_couple_point_t *)obj; vt.pow = val; vt.have_t |= 1; }
+    else if (!strcmp(tag, "T2")) { vt.T2 = *(const theta_couple_point_t *)obj; vt.have_t |= 2; }
+    else if (!strcmp(tag, "T1m2")) { vt.T1m2 = *(const theta_couple_point_t *)obj; vt.have_t |= 4; }
+    else if (!strcmp(tag, "E_com")) { vt.Ecom = *(const ec_curve_t *)obj; vt.have_com = 1; }
+    else if (!strcmp(tag, "check_chall")) {
+        const ibz_vec_2_t *v = (const ibz_vec_2_t *)obj;
+        gmp_snprintf(vt.chk[0], sizeof vt.chk[0], "%Zx", (*v)[0]);
+        gmp_snprintf(vt.chk[1], sizeof vt.chk[1], "%Zx", (*v)[1]);
+        vt.have_chk = 1;
+    }
+}
+
+static void
+out_fp2(const char *name, const fp2_t *x)
+{
+    unsigned char buf[FP2_ENCODED_BYTES];
+    fp2_encode(buf, x);
+    printf(" %s=", name);
+    for (int i = 0; i < FP2_ENCODED_BYTES; i++)
+        printf("%02x", buf[i]);
+}
+static void
+out_j(const char *name, const ec_curve_t *E)
+{
+    fp2_t j;
+    ec_curve_t c = *E;
+    ec_j_inv(&j, &c);
+    out_fp2(name, &j);
+}
+static void
+out_x(const char *name, const ec_point_t *P)
+{
+    fp2_t t;
+    fp2_copy(&t, &P->z);
+    fp2_inv(&t);
+    fp2_mul(&t, &t, &P->x);
+    out_fp2(name, &t);
+}
+
+/* after a verify: report the tapped values and what the bookkeeping model needs, recomputed with the library:
+   the canonical basis of E_chall with the matrix applied (must be the signer's final basis), which of its two points
+   gives the tapped kernel of the small chain, exact orders of everything, and the challenge kernel computed the
+   signer's way (biscalar multiplication by (1, chall_coeff)) against the verifier's ladder */
+static int ord2(const ec_point_t *P, const ec_curve_t *E, int t) { ec_curve_t c = *E; return test_point_order_twof(P, &c, t) ? 1 : 0; }
+static int eq2(const ec_point_t *P, const ec_point_t *Q) { return ec_is_equal(P, Q) ? 1 : 0; }
+
+static void
+report_vtap(void)
+{
+    printf("R vtap have=%d%d%d%d%d%d%d", vt.have_chall, vt.have_ker, vt.have_e1, vt.have_e2, vt.have_t == 7, vt.have_com, vt.have_chk);
+    if (!(vt.have_chall && vt.have_e1 && vt.have_e2 && vt.have_t == 7 && vt.have_com && vt.have_chk)) {
+        printf("\n");
+        return;
+    }
+    int v = sig.two_resp_length, pow = vt.pow, n = pow + 2 + v;
+    printf(" challlen=%d pow=%d kerlen=%d", vt.chall_len, pow, vt.have_ker ? vt.ker_len : -1);
+    out_j("jchall", &vt.Echall);
+    out_j("je1", &vt.E1);
+    out_j("je2", &vt.E2);
+    out_j("jcom", &vt.Ecom);
+    printf(" chk=%s,%s", vt.chk[0], vt.chk[1]);
+    /* recomputed applied basis on E_chall */
+    ec_basis_t B;
+    ec_curve_t Ec = vt.Echall;
+    ibz_mat_2x2_t m;
+    ibz_mat_2x2_init(&m);
+    ibz_mat_2x2_copy(&m, &sig.mat_Bchall_can_to_B_chall);
+    ec_curve_to_basis_2f_from_hint(&B, &Ec, n, sig.hint_chall);
+    matrix_application_even_basis(&B, &Ec, &m, n);
+    out_x("xP", &B.P);
+    out_x("xQ", &B.Q);
+    out_x("xPmQ", &B.PmQ);
+    /* orders of the applied basis points (exact 2^n ?) */
+    printf(" ordP=%d ordQ=%d", ord2(&B.P, &Ec, n), ord2(&B.Q, &Ec, n));
+    if (v == 0) {
+        printf(" eqT=%d%d%d", eq2(&vt.T1.P1, &B.P), eq2(&vt.T2.P1, &B.Q), eq2(&vt.T1m2.P1, &B.PmQ));
+        printf(" kercol=- kerord=-");
+    } else {
+        ec_point_t kp = B.P, kq = B.Q;
+        ec_dbl_iter(&kp, pow + 2, &Ec, &kp);
+        ec_dbl_iter(&kq, pow + 2, &Ec, &kq);
+        int cp = vt.have_ker && eq2(&kp, &vt.ker), cq = vt.have_ker && eq2(&kq, &vt.ker);
+        printf(" eqT=---");
+        printf(" kercol=%s kerord=%d", cp ? "0" : cq ? "1" : "none", vt.have_ker ? ord2(&vt.ker, &Ec, v) : -1);
+    }
+    /* exact orders 2^(pow+2) of the six kernel components used by the (2,2)-chain */
+    ec_curve_t e1 = vt.E1, e2 = vt.E2;
+    printf(" ord=%d%d%d%d%d%d", ord2(&vt.T1.P1, &e1, pow + 2), ord2(&vt.T2.P1, &e1, pow + 2),
+           ord2(&vt.T1m2.P1, &e1, pow + 2), ord2(&vt.T1.P2, &e2, pow + 2),
+           ord2(&vt.T2.P2, &e2, pow + 2), ord2(&vt.T1m2.P2, &e2, pow + 2));
+    /* challenge kernel: signer's way vs verifier's way on the canonical basis of the public key */
+    {
+        ec_basis_t bpk;
+        ec_curve_t Epk = pk.curve;
+        ec_point_t ks, kv;
+        ibz_t one;
+        digit_t scal[NWORDS_ORDER] = { 0 };
+        ibz_init(&one);
+        ibz_set(&one, 1);
+        ec_curve_to_basis_2f_from_hint(&bpk, &Epk, TORSION_PLUS_EVEN_POWER, pk.hint_pk);
+        ec_biscalar_mul_ibz(&ks, &Epk, &one, &sig.chall_coeff, &bpk, TORSION_PLUS_EVEN_POWER);
+        ibz_to_digit_array(scal, &sig.chall_coeff);
+        ec_ladder3pt(&kv, scal, &bpk.P, &bpk.Q, &bpk.PmQ, &Epk);
+        printf(" kerpk=%d kerpkord=%d", eq2(&ks, &kv), ord2(&kv, &Epk, TORSION_PLUS_EVEN_POWER));
+        ibz_finalize(&one);
+    }
+    printf("\n");
+    ibz_mat_2x2_finalize(&m);
+}
+#endif
+
+
 static void
 sig_copy(signature_t *d, const signature_t *s)
 {
@@ -264,7 +394,17 @@ main(void)
             }
             fprintf(stderr, "drv-mark: verify\n");
             printf("R begin verify\n");
-            printf("R verify %d\n", protocols_verif(&sig, &pk, msg, msglen));
+#if VERIF_VARIANT == 0
+            memset(&vt, 0, sizeof vt);
+            sqisign_verif_tap = vtap_cb;
+#endif
+            int vres = protocols_verif(&sig, &pk, msg, msglen);
+#if VERIF_VARIANT == 0
+            sqisign_verif_tap = 0;
+            if (getenv("SQI_VERIF_TRACE"))
+                report_vtap();
+#endif
+            printf("R verify %d\n", vres);
 #endif
         } else if (sscanf(line, "tamper %127s %lld", a, &n1) == 2) {
             printf("R tamper %s\n", tamper(a, (long)n1) ? "ok" : "nofield");
